@@ -184,6 +184,9 @@ func checkUnaryPairing(e *Env, sim *Sim, prop string) {
 			continue
 		}
 		site := "unary"
+		if !r.Started {
+			continue // no caller task runs this call (minimised scenario)
+		}
 		if !r.Returned {
 			e.Violate(prop, "hang", site, "call %d: Invoke has not returned after settle\n%s", id, e.WaitGraph())
 			continue
@@ -211,6 +214,7 @@ func checkUnaryPairing(e *Env, sim *Sim, prop string) {
 func init() {
 	Register(&Family{
 		Name:  "c01.unary",
+		ShrinkKeys: []string{"callers"},
 		Props: []string{"C01"},
 		New:   func() any { return &C01Params{} },
 		Gen:   genC01,
